@@ -220,6 +220,6 @@ def _run(case):
 
 
 PARTS = [
-    Part('requested-modifications', _run, strategy=_strategy, examples={'quick': 320, 'thorough': 8000},
+    Part('requested-modifications', _run, strategy=_strategy, case_timeout=240, examples={'quick': 320, 'thorough': 8000},
          floors={'modification-adds-bonded-atoms': 0.1, 'modification-atom-left-out': 0.1, 'modification-requested': 0.6}),
 ]
